@@ -3,7 +3,7 @@
 
         tbGen ∈ { none, complete c, partial c }        (c = material class of the generator)
 
-    "partial c" = a TBGenerator whose generate() did not run to completion: its table region
+    "partial c" = a TBGenerator whose generate() did not prun to completion: its table region
     holds a mixture of stale bytes, phase-1 classifications and finished layers.
 
     Two variants of the one line that differs:
@@ -39,7 +39,7 @@ Section Model.
   Definition is_partial (x : gen) : bool := match x with GPartial _ => true | _ => false end.
 
   (** one operation: new state, return value, and whether it READ a partial table *)
-  Definition step (v : variant) (s : st) (o : op) : st * bool * bool :=
+  Definition pstep (v : variant) (s : st) (o : op) : st * bool * bool :=
     match o with
     | OUnsuitable =>
         if installed (g s) then
@@ -59,26 +59,26 @@ Section Model.
     | OProbe => (s, installed (g s), is_partial (g s))
     end.
 
-  Definition init : st := mkSt GNone 0.
+  Definition pinit : st := mkSt GNone 0.
 
   (** observable trace: per operation (return value, generator installed afterwards, partial read) *)
-  Fixpoint run (v : variant) (s : st) (ops : list op) : list (bool * bool * bool) :=
+  Fixpoint prun (v : variant) (s : st) (ops : list op) : list (bool * bool * bool) :=
     match ops with
     | [] => []
-    | o :: r => let '(s', ret, rp) := step v s o in (ret, installed (g s'), rp) :: run v s' r
+    | o :: r => let '(s', ret, rp) := pstep v s o in (ret, installed (g s'), rp) :: prun v s' r
     end.
 
   Definition reads_partial (v : variant) (ops : list op) : bool :=
-    existsb (fun t => snd t) (run v init ops).
+    existsb (fun t => snd t) (prun v pinit ops).
 
   (** the property: no probe ever reads a partial table, whatever the history *)
   Definition abort_state_safe (v : variant) : Prop := forall ops, reads_partial v ops = false.
 
   Lemma fixed_never_partial : forall ops s, is_partial (g s) = false ->
-    existsb (fun t : bool * bool * bool => snd t) (run Fixed s ops) = false.
+    existsb (fun t : bool * bool * bool => snd t) (prun Fixed s ops) = false.
   Proof.
     induction ops as [|o r IH]; intros s Hs; [reflexivity|].
-    simpl. destruct (step Fixed s o) as [[s' ret] rp] eqn:E. simpl.
+    simpl. destruct (pstep Fixed s o) as [[s' ret] rp] eqn:E. simpl.
     assert (H : rp = false /\ is_partial (g s') = false).
     { destruct o as [c pre enough ok| | |]; simpl in E.
       - destruct (installed (g s) && pre); [inversion E; subst; simpl; auto|].
@@ -110,13 +110,13 @@ Proof. exists abort_witness. vm_compute. reflexivity. Qed.
 (** ... and the next updateTB on the same material reads it too and, if the probe happens to
     hit, reports "tables available" without generating anything *)
 Example abort_then_update :
-  run nat Current (init nat) [OUpdate 0 false true false; OUpdate 0 true true true] =
+  prun nat Current (pinit nat) [OUpdate 0 false true false; OUpdate 0 true true true] =
   [(false, true, false); (true, true, true)].
 Proof. vm_compute. reflexivity. Qed.
 
 (** non-vacuity of the fixed model: the same history installs nothing and the second call
     generates a complete table *)
 Example abort_then_update_fixed :
-  run nat Fixed (init nat) [OUpdate 0 false true false; OProbe; OUpdate 0 true true true; OProbe] =
+  prun nat Fixed (pinit nat) [OUpdate 0 false true false; OProbe; OUpdate 0 true true true; OProbe] =
   [(false, false, false); (false, false, false); (true, true, false); (true, true, false)].
 Proof. vm_compute. reflexivity. Qed.
